@@ -10,6 +10,7 @@ import (
 	"time"
 
 	"github.com/taurusgroup/multi-party-sig/pkg/party"
+	"github.com/taurusgroup/multi-party-sig/pkg/pool"
 	"github.com/taurusgroup/multi-party-sig/pkg/protocol"
 )
 
@@ -25,11 +26,13 @@ type Node struct {
 	PanicFn   string
 	Hang      bool
 	HangStack string
-	Sent      []*protocol.Message // everything the node emitted, in canonical order
-	Recv      []*Env              // everything delivered to it (in delivery order)
-	Tag       string              // free label (e.g. session name)
-	out       <-chan *protocol.Message
-	initial   []*protocol.Message
+	// PoolTaskPanics counts calls in which a panic escaped from a pool task (see pool.SimTaskDepth).
+	PoolTaskPanics int
+	Sent           []*protocol.Message // everything the node emitted, in canonical order
+	Recv           []*Env              // everything delivered to it (in delivery order)
+	Tag            string              // free label (e.g. session name)
+	out            <-chan *protocol.Message
+	initial        []*protocol.Message
 }
 
 // Env is one (message, addressee) pair in flight.
@@ -136,6 +139,7 @@ func LibFrame(stack string) string {
 // Call runs f (a call into node's handler) with the node's randomness stream selected, on a helper
 // goroutine, while draining the node's outgoing channel. Panics are recovered and recorded.
 func (n *Net) Call(node *Node, f func()) (msgs []*protocol.Message) {
+	pool.SimTaskDepth = 0
 	done := make(chan struct{})
 	if node.H != nil && node.out == nil && !node.Closed {
 		node.out = node.H.Listen()
@@ -213,6 +217,12 @@ func (n *Net) Call(node *Node, f func()) (msgs []*protocol.Message) {
 	}
 	if node.Panic != "" {
 		node.Dead = true
+	}
+	// a panic that the handler recovered may have happened inside a pool task (nil pool: the task ran
+	// on this goroutine). With a real pool it would have killed the process on a worker goroutine.
+	if pool.SimTaskDepth != 0 {
+		node.PoolTaskPanics++
+		pool.SimTaskDepth = 0
 	}
 	return msgs
 }
